@@ -82,6 +82,14 @@ pub fn case(idx: u64, seed: u64, p: &Params, o: &mut CaseOut) {
             _ => (4, idx - 69),
         };
         (decode(n, mask), "all_order_le_4")
+    } else if r.below(100_000) < p.usize("huge_per_100k", 40) {
+        let n = r.range(600, p.usize("huge_max", 1500));
+        let mut m = gen::family(&mut r, 4, n); // one long circuit
+        for _ in 0..r.below(3) {
+            let u = r.below(n - 1);
+            m.add(u + 1, u, 1); // a few 2-circuits along it
+        }
+        (m, "long_circuit")
     } else {
         match r.below(10) {
             0..=3 => (decode(5, r.next() & ((1 << 20) - 1)), "order_5_sampled"),
